@@ -648,7 +648,18 @@ func Delete(ctx context.Context, scope *ReferenceScope, query parser.DeleteQuery
 	deletedIndices := make(map[string]map[int]bool)
 	tablesToDelete := make(map[string]string)
 	for _, v := range query.Tables {
-		table := v.(parser.Table)
+		// DELETE FROM (t): the single table of the FROM clause may be parenthesized
+		for {
+			parentheses, ok := v.(parser.Parentheses)
+			if !ok {
+				break
+			}
+			v = parentheses.Expr
+		}
+		table, ok := v.(parser.Table)
+		if !ok {
+			return nil, nil, NewDeleteTableNotSpecifiedError(query)
+		}
 		tableName, err := ParseTableName(ctx, queryScope, table)
 		if err != nil {
 			return nil, nil, err
